@@ -4,7 +4,10 @@ caught_by / reports in /verif/seeded/<id>/meta.json."""
 import json, os, re, subprocess, sys, tempfile, shutil
 root = "/verif/seeded"
 res = []
+flt = sys.argv[1] if len(sys.argv) > 1 else ""
 for seed in sorted(os.listdir(root)):
+    if flt and not re.search(flt, seed):
+        continue
     d = os.path.join(root, seed)
     mf = os.path.join(d, "meta.json")
     if not os.path.exists(mf):
